@@ -108,6 +108,7 @@ type c28Scenario struct {
 	concurrency     int
 	srcDir          string
 	uploadCompacted bool
+	lexOrder        bool
 }
 
 // runC28 enumerates every crash point of one generated scenario, then samples transient faults.
@@ -119,6 +120,7 @@ func runC28(x *simkit.Exec) {
 		nblocks = x.Range("nblocks", 1, 2)
 	}
 	sc.concurrency = x.Range("concurrency", 1, 4)
+	sc.lexOrder = x.Bool("lexListing", 1, 2)
 	sc.srcDir = filepath.Join(x.TempDir(), "src")
 	for i := 0; i < nblocks; i++ {
 		sp := fixtures.SynthSpec{
@@ -164,6 +166,7 @@ func (sc *c28Scenario) execute(x *simkit.Exec, salt string, crashAt int, faults 
 	ops := 0
 	x.Bubble(salt, func(s *simkit.Sim) {
 		target := simbucket.New("target")
+		target.LexOrder = sc.lexOrder
 		target.Attach(s)
 		origin := simbucket.New("origin")
 		mon := &visibilityMonitor{b: target, deleting: map[string]bool{}}
